@@ -1009,7 +1009,7 @@ def judge_c18(ctx, ex):
         if r["schema"] is None:
             yield (r["parse_problem"], True, None)
             return
-    if ctx["scenario"] == "history":
+    if ctx["scenario"].startswith("history"):
         got, want, what = runs[1], runs[2], "second call on the same Shaper vs a fresh Shaper with the second call's arguments"
     else:
         got, want, what = runs[1], runs[0], "the same call repeated on one Shaper"
